@@ -122,9 +122,11 @@ def harnesses(tier):
             hs.append(Sort([k], 3))
         hs.append(Sort(["f", "b"], 3))
         hs.append(Sort(["T", "i"], 2))
+        hs.append(Sort(["us"], 3))          # microsecond ticks reach beyond 2**53 within years 1..9999
+        hs.append(Sort(["td"], 2))
     else:
         kinds = ["f", "i", "T", "b", "D", "us", "U", "O"]
-        for k in kinds:
+        for k in kinds + ["td"]:
             hs.append(Sort([k], 4))
         for a in kinds:
             for b in kinds:
